@@ -419,7 +419,7 @@ func runC01(c *Ctx) {
 	// resolver model is PROVED to refine den; run under Tier A for the run-time tie
 	nPlain, nStaticOnly := 36, 400
 	if c.Thorough {
-		nPlain, nStaticOnly = 400, 4000
+		nPlain, nStaticOnly = 150, 4000
 	}
 	for i := 0; i < nPlain; i++ {
 		src, st := GenProgram(c.Rng, GenOpts{NoMap: true, NoDisable: true, MaxDepth: 1 + i%3, MaxCalls: 2 + i%4})
@@ -466,7 +466,7 @@ func runC01(c *Ctx) {
 			}
 			r.hist("final:" + final)
 			if strings.HasPrefix(cs.name, "family/narrow-") || strings.HasPrefix(cs.name, "family/disabled-same-stage") ||
-				strings.HasPrefix(cs.name, "family/map-static") {
+				strings.HasPrefix(cs.name, "family/map-") {
 				cls := strings.Join(strings.SplitN(strings.TrimPrefix(cs.name, "family/"), "-", 3)[:2], "-")
 				r.hist("family:" + cls + ":" + final)
 				if final != "complete" && si == cs.specs[0] {
